@@ -10,7 +10,8 @@ model); (2) real compiled-rule images: every prefix length of small files, all s
 sampled interior points of larger ones, all single-field corruptions of header and buffer table —
 each loaded by the real yr_rules_load_stream (forked, ASan/UBSan; rules that load are scanned and
 their statistics walked) and by the Lean `loadRules`; outcomes are compared with each other and with
-the specification "error code and no rule set"."""
+the specification "error code and no rule set"; (3) the file-name API yr_rules_load / yr_rules_save on the
+same damaged files: same error code, no rule set, no descriptor and no heap block left behind."""
 import collections, struct
 from vf import core
 from vf.checks import arena_common as ac
@@ -26,7 +27,9 @@ MANIFEST = dict(
     text="proof: Thm/C17.lean proves for every arena (at most 16 buffers, each below 2 GiB), every loader configuration and EVERY cut point before the end of "
          "the buffer bodies that the loader rejects the prefix (prefix_header: INVALID_FILE; prefix_table, prefix_bodies: CORRUPT_FILE), and what happens to a "
          "trailing partial relocation entry (applyRelocs_partial). For cut points inside the relocation section the property is FALSE for this file format "
-         "(no count, no terminator): reloc_cut_accepted / reloc_cut_accepted_witness; known finding F9. SINGLE-FIELD CORRUPTIONS, for every saved image of a "
+         "(no count, no terminator): reloc_cut_accepted / reloc_cut_accepted_witness; known finding F9 — and exactly there: prefix_in_entry (a cut inside an "
+         "entry is CORRUPT_FILE for the fully checked loader) and prefix_accepted_iff classify EVERY proper prefix length: accepted iff at or after the end "
+         "of the bodies on an entry boundary. SINGLE-FIELD CORRUPTIONS, for every saved image of a "
          "well-formed arena and ANY other value of the field's type: corrupt_magic (each of the 4 bytes, any byte: INVALID_FILE), corrupt_version (any byte, "
          "older or newer: UNSUPPORTED_FILE_VERSION), corrupt_num_buffers (any byte: INVALID_FILE above 16, else CORRUPT_FILE), corrupt_offset (any entry, any "
          "64-bit value: CORRUPT_FILE), corrupt_size_not_last (any entry but the last, any 32-bit value: CORRUPT_FILE) — the last three for a loader with the "
@@ -40,7 +43,14 @@ MANIFEST = dict(
          "present: a function of the buffer count and of the size field of entry 11), and rules_after_size_corruption that after a single-field corruption it can "
          "only fire when the summary's own size is set to 0. Tie: header/table corruptions of real images use value sets (boundaries, bit flips, neighbours, the "
          "two proved families and their edges) AND uniformly random 64-/32-bit values per field; each is loaded by the real loader under ASan/UBSan and by the "
-         "model (must agree), and the driver recomputes the theorems' closed-form verdict for each and compares it with the loader model (THM token).",
+         "model (must agree), and the driver recomputes the theorems' closed-form verdict for each and compares it with the loader model (THM token). "
+         "file_api_gives_back_handle: the bodies of yr_rules_load / yr_rules_save (translated statement by statement from rules.c on every run) hold no FILE "
+         "handle when they return, for every outcome of fopen and of the stream call. "
+         "FILE-NAME API (h_loadfile): the same truncations and single-field corruptions are written to files and loaded by path with yr_rules_load; each call "
+         "must return the stream API's error code on the same bytes, hand back no rule set, and give back every descriptor it opened (entries of "
+         "/proc/self/fd before/after each rejected and each accepted load and after yr_rules_destroy; LeakSanitizer's recoverable check after every call); the "
+         "intact file must still load after all the rejected ones; also a missing / directory / unreadable path, and yr_rules_save to a new file (bytes = "
+         "image), into a missing directory, onto a directory and to /dev/full.",
     design_ref="DESIGN.md §5 C17, §4 D9, §6 F9, F51",
     note=core.TB + "The model covers arena.c's loader and the summary test of rules.c; what the scanner does with rules that were wrongly accepted is observed "
          "(crash / different results), not modelled. The corruption theorems are about images written by `save` of a well-formed arena; that real compiled "
@@ -221,17 +231,121 @@ def cli_campaign(chk, tier, r):
     return nviol > 0
 
 
+def file_campaign(chk, b, tier, r, images, findings, replay_line=None):
+    """The FILE-NAME API (yr_rules_load / yr_rules_save): the same truncations and single-field corruptions written to a file and
+    loaded by path.  A rejected load must be "an error and nothing else": same error code as the stream API on the same bytes,
+    no rule set handed back, and every descriptor the call opened given back (entries of /proc/self/fd before/after each call;
+    LeakSanitizer's recoverable check after each call where the build supports it).  Also: a path that does not exist / is a
+    directory / is unreadable; yr_rules_save to a new file, into a missing directory, onto a directory, and to a full device."""
+    lines, meta = [], {}
+    if replay_line:
+        lines = [replay_line]
+    else:
+        for k, (cid, hexs, lay) in enumerate(images):
+            n_img = len(hexs) // 2
+            be = lay["bodies_end"]
+            cuts = {0, 1, 5, HDR, HDR + 1, lay["tbl_end"] - 1, lay["tbl_end"], lay["tbl_end"] + 1, be - 1, n_img - 1, n_img - 3}
+            cuts |= {r.randrange(0, max(1, be)) for _ in range(40 if tier == "quick" else 400)}
+            if lay["nrel"]:
+                cuts |= {be + 8 * r.randrange(lay["nrel"]) + r.randint(1, 7) for _ in range(6 if tier == "quick" else 60)}   # inside an entry: rejected
+            muts = ["full"] + ["p%d" % c for c in sorted(cuts) if 0 <= c < n_img and not (c >= be and (c - be) % 8 == 0)]
+            img = bytes.fromhex(hexs)
+            cor = [(sp, info) for sp, info in corruption_specs(img, lay, r, "quick") if not f51_family(info, lay, None)]
+            muts += [sp for sp, _ in r.sample(cor, min(len(cor), 40 if tier == "quick" else 300))]
+            muts += ["full", "nofile", "dir", "unreadable", "saveok", "savenodir", "savedir", "savefull", "full"]
+            lid = "lf%d" % k
+            lines.append("%s img=%s muts=%s" % (lid, hexs, ",".join(muts)))
+            meta[lid] = cid
+    env = ac.scratch_env(PID, {"ASAN_OPTIONS": "detect_leaks=1:symbolize=0:exitcode=99:abort_on_error=0", "VF_LSAN": "1",
+                               "UBSAN_OPTIONS": "halt_on_error=0:print_stacktrace=0:symbolize=0"})
+    out, rc, err = core.run_parallel(ac.capped(b["h_loadfile"]), lines, env=env, timeout=1200)
+    found = False
+    st = collections.Counter()
+    nviol = 0
+    byid = {l.split(" ", 1)[0]: l for l in lines}
+    f_save = next((f for f in findings if f.get("signature", {}).get("kind") == "save-reports-success-on-write-failure"), None)
+    if rc != 0:
+        chk.violation("loadfile_harness.json", {"kind": "harness-failed", "rc": rc, "stderr": err[-2000:], "harness": "h_loadfile"})
+        return True
+    for l in out:
+        l1, _ = ac.split_ub(l)
+        toks = l1.split(" ")
+        lid = toks[0]
+        for t in toks[1:]:
+            if "=" not in t:
+                if t.startswith("CRASH"):
+                    st["crash"] += 1
+                    nviol += 1
+                    found = True
+                    chk.violation("loadfile_%d.json" % nviol, {"kind": "file-api-crash", "harness": "h_loadfile", "case": byid.get(lid), "crash": t, "part": "file"})
+                continue
+            m, res = t.split("=", 1)
+            f = res.split(":")
+            bad = None
+            kind = "save" if m.startswith("save") else "path" if m in ("nofile", "dir", "unreadable") else "load"
+            st[kind + ":" + f[0]] += 1
+            if f[0] == "SKIPPED-ROOT":
+                continue
+            if "LEAK" in f:
+                bad = "heap-leak-after-call"
+            elif "RULES-RETURNED" in f:
+                bad = "error-code-but-rules-returned"
+            elif len(f) < 4:
+                bad = "malformed-result"
+            elif f[2] != "0":
+                bad = "descriptor-not-given-back" if f[0] != "OK" else "descriptor-kept-after-successful-call"
+            elif f[3] not in ("-", "0"):
+                bad = "descriptor-kept-after-destroy"
+            elif kind == "load" and f[1] != f[0]:
+                bad = "file-api-and-stream-api-disagree"
+            elif kind == "load" and m != "full" and f[0] == "OK":
+                bad = "damaged-file-accepted"
+            elif m == "full" and f[0] != "OK":
+                bad = "intact-file-not-loaded (after %d earlier calls in this process)" % toks.index(t)
+            elif m == "nofile" and f[0] != "COULD_NOT_OPEN_FILE":
+                bad = "missing-file-not-reported"
+            elif m in ("dir", "unreadable") and f[0] == "OK":
+                bad = "unreadable-path-accepted"
+            elif m == "saveok" and (f[0] != "OK" or f[-1] != "same"):
+                bad = "saved-file-differs-from-image"
+            elif m in ("savenodir", "savedir") and f[0] != "COULD_NOT_OPEN_FILE":
+                bad = "unwritable-path-not-reported"
+            elif m == "savefull" and f[0] == "OK":
+                if f_save:
+                    st["known:" + f_save["id"]] += 1
+                    continue
+                st["observed:save-to-full-device-reported-success"] += 1     # image smaller than the stdio buffer: the failure surfaces in fclose, whose result yr_rules_save drops
+                continue
+            if bad:
+                nviol += 1
+                found = True
+                if nviol <= 5:
+                    chk.violation("loadfile_%d.json" % nviol, {"kind": bad, "harness": "h_loadfile", "mutation": m, "result": res, "part": "file",
+                                                             "case": byid[lid] if bad.startswith("intact-file-not-loaded") else
+                                                                     "%s img=%s muts=%s" % (lid, byid[lid].split(" img=")[1].split(" ")[0], m),
+                                                             "note": "result = <file rc>:<stream rc>:<open descriptors after the call - before>:<... after destroy>"})
+    if f_save and st.get("known:" + f_save["id"]):
+        chk.known(f_save, "%s: %s (%d saves this run)" % (f_save["id"], f_save["signature"].get("summary", ""), st["known:" + f_save["id"]]))
+    chk.cov["file_api"] = {"lines": len(lines), "calls": sum(v for k, v in st.items() if not k.startswith("known")), "outcomes": dict(st), "violations": nviol}
+    return found
+
+
 def run(tier, replay=None):
     chk = core.Check(PID, tier)
-    th = core.run_translators(["arenalayout"])
+    th = core.run_translators(["arenalayout", "rulesfile"])
     lres = core.lean_check(THM)
     core.proof_coverage(chk, lres, THM, th)
-    b = core.build("asan", harness=["h_grow", "h_load", "h_arena"], **ac.REC)
+    b = core.build("asan", harness=["h_grow", "h_load", "h_arena", "h_loadfile"], **ac.REC)
     findings = core.known_findings(PID)
     fk = {f["id"]: f for f in findings}
     found = False
     r = core.rng(PID)
     ubs = set()
+
+    if replay and replay.get("part") == "file":
+        f = file_campaign(chk, b, tier, core.rng(PID + "/file"), [], findings, replay_line=replay["case"])
+        core.handle_broken_proof(chk, lres, f)
+        return chk.finish("proof")
 
     if replay and replay.get("part") == "ops":
         f, cov, u = ac.ops_tie(chk, b, 1, PID + "/ops", replay_case=replay["case"])
@@ -256,6 +370,7 @@ def run(tier, replay=None):
         lines = [ac.case_line("f%d" % i, c, hex=1) for i, c in enumerate(cases)]
         out, rc, err = core.run_parallel(ac.capped(b["h_grow"]), lines, env=ac.scratch_env(PID))
         lines2, meta = [], {}
+        file_images = []
         for l in out:
             l1, u = ac.split_ub(l)
             ubs |= set(u)
@@ -266,6 +381,8 @@ def run(tier, replay=None):
             img = bytes.fromhex(d["HEX"])
             lay = layout(img)
             exhaustive = i < nex and len(img) <= 9000
+            if len(img) <= 20000 and len(file_images) < (3 if tier == "quick" else 12):
+                file_images.append((d["id"], d["HEX"], lay))
             specs = prefix_specs(img, lay, r, exhaustive, tier)
             cor = corruption_specs(img, lay, r, tier)
             fields = {s: f for s, f in cor}     # spec -> dict(name, i, v, old)
@@ -424,6 +541,7 @@ def run(tier, replay=None):
                         nontrivial.add((cid, field))
     if not replay:
         found |= cli_campaign(chk, tier, r)
+        found |= file_campaign(chk, b, tier, core.rng(PID + "/file"), file_images, findings)
     for fid, cnt in sorted(known_seen.items()):
         f = next(x for x in findings if x["id"] == fid.split(":")[0] and (":" not in fid or x["signature"].get("field") == fid.split(":")[1]))
         chk.known(f, "%s: %s (%d mutations this run)" % (fid, f["signature"].get("summary", f["text"][:120]), cnt))
